@@ -5,8 +5,8 @@ tier=${1:-quick}; shift
 ids="$@"; [ -z "$ids" ] && ids=$(ls /verif/seeded)
 cd /verif
 # evidence files must describe runs against the unchanged tree: keep them aside while a change is applied
-rm -rf /tmp/evidence.keep.$$; cp -r /verif/evidence /tmp/evidence.keep.$$
-trap 'rm -rf /verif/evidence; cp -r /tmp/evidence.keep.$$ /verif/evidence; rm -rf /tmp/evidence.keep.$$' EXIT
+export VERIF_EVIDENCE=/tmp/evidence.eval.$$   # evidence of these runs is scratch
+trap 'rm -rf /tmp/evidence.eval.$$' EXIT
 for id in $ids; do
   prop=${id:0:3}
   if ! git -C /repo apply --check /verif/seeded/$id/patch.diff 2>/dev/null; then echo "$id: patch does not apply"; continue; fi
